@@ -70,6 +70,9 @@ def rand_size(rng, lo=0.2, hi=3.0):
     return float(np.exp(rng.uniform(np.log(lo), np.log(hi))))
 
 
+LIFECYCLE_BUILDS = [0]   # how many TriangularMesh objects were built through the late-reorientation history
+
+
 def rand_mesh(rng, kind=None):
     """closed meshes with outward faces by construction: (vertices, faces)"""
     from scipy.spatial import ConvexHull
@@ -129,6 +132,13 @@ def rand_source(rng, cls=None, path_len=1, pos_scale=1.0, excitation_scale=1.0):
         s["vertices"] = v.tolist()
     elif cls == "TriangularMesh":
         s["vertices"], s["faces"] = rand_mesh(rng)
+        if rng.random() < 0.3:
+            # object history instead of a fresh object: handed over with some facets wound the wrong way and
+            # reorient_faces="skip", used once (mesh read / field evaluated), and only then reoriented through
+            # the public method.  The specification still describes the same body (see build()).
+            nf = len(s["faces"])
+            s["lifecycle"] = {"flip": sorted(int(i) for i in rng.choice(nf, int(rng.integers(1, nf + 1)), replace=False)),
+                              "touch": str(rng.choice(["mesh", "getB", "getH", "none"]))}
     elif cls == "Triangle":
         v = rng.normal(size=(3, 3))
         while np.linalg.norm(np.cross(v[1] - v[0], v[2] - v[0])) < 0.2:
@@ -214,7 +224,21 @@ def build(spec, registry=None):
             for k in ("check_open", "check_disconnected", "check_selfintersecting", "reorient_faces"):
                 if k in spec:
                     kw[k] = spec[k]
-            obj = C(**kw)
+            life = spec.get("lifecycle") if cls == "TriangularMesh" and "reorient_faces" not in spec else None
+            if life:
+                F = np.array(spec["faces"])
+                flip = [i for i in life["flip"] if i < len(F)]     # (a check may have swapped in another mesh)
+                F[flip] = F[flip][:, ::-1]
+                kw["faces"] = F
+                obj = C(reorient_faces="skip", **kw)
+                if life["touch"] == "mesh":
+                    _ = obj.mesh
+                elif life["touch"] in ("getB", "getH"):
+                    getattr(obj, life["touch"])(np.array(spec["vertices"]).mean(axis=0) + np.array([0.01, 0.02, 0.03]))
+                obj.reorient_faces(mode="ignore")
+                LIFECYCLE_BUILDS[0] += 1
+            else:
+                obj = C(**kw)
     if registry is not None:
         registry.append(obj)
     return obj
